@@ -84,6 +84,83 @@ func RunConfigs(e *Env) {
 	if e.Batch == 0 {
 		runLiveOverlap(e)
 	}
+	runConcurrentCreation(e)
+}
+
+// runConcurrentCreation: configurations created concurrently over overlapping addresses share the manager's pooled nodes.
+func runConcurrentCreation(e *Env) {
+	R := e.R
+	rng := e.Rand(142)
+	iters := e.Pick(1500, 40000)
+	if e.Of > 1 {
+		iters /= e.Of
+	}
+	for it := 0; it < iters && R.NumViolations() < 8; it++ {
+		mgr := puppet.NewManager(gorums.WithNoConnect())
+		qs := &h.QSpec{}
+		base := 9200 + rng.Intn(50)
+		const G = 4
+		cfgs := make([]*puppet.Configuration, G)
+		errs := make([]error, G)
+		lists := make([][]string, G)
+		for g := 0; g < G; g++ {
+			for k := 0; k < 1+rng.Intn(3); k++ {
+				lists[g] = append(lists[g], fmt.Sprintf("127.0.0.1:%d", base+rng.Intn(3)))
+			}
+		}
+		start := make(chan struct{})
+		done := make(chan struct{}, G)
+		for g := 0; g < G; g++ {
+			go func(g int) {
+				<-start
+				if g%2 == 0 {
+					cfgs[g], errs[g] = mgr.NewConfiguration(gorums.WithNodeList(lists[g]), qs)
+				} else {
+					m := map[string]uint32{}
+					for _, a := range lists[g] {
+						m[a] = fnvID(a)
+					}
+					cfgs[g], errs[g] = mgr.NewConfiguration(gorums.WithNodeMap(m), qs)
+				}
+				done <- struct{}{}
+			}(g)
+		}
+		close(start)
+		for g := 0; g < G; g++ {
+			<-done
+		}
+		pooled := map[uint32]*gorums.RawNode{}
+		for _, n := range mgr.Nodes() {
+			if _, dup := pooled[n.ID()]; dup {
+				R.Violate("concurrent-creation-duplicate-id", fmt.Sprintf("after concurrent creation the manager pools two nodes with id %d (lists %v)", n.ID(), lists), nil)
+			}
+			pooled[n.ID()] = n.RawNode
+		}
+		for g := 0; g < G; g++ {
+			if errs[g] != nil {
+				R.Violate("concurrent-creation-fails", fmt.Sprintf("creating configurations concurrently over overlapping addresses failed: %v (lists %v)", errs[g], lists), nil)
+				continue
+			}
+			want := map[uint32]bool{}
+			for _, a := range lists[g] {
+				want[fnvID(a)] = true
+			}
+			if fmt.Sprint(cfgs[g].NodeIDs()) != fmt.Sprint(sortedIDs(want)) {
+				R.Violate("concurrent-creation-contents", fmt.Sprintf("configuration %d has ids %v, want %v", g, cfgs[g].NodeIDs(), sortedIDs(want)), nil)
+			}
+			for _, n := range cfgs[g].Nodes() {
+				if pooled[n.ID()] != n.RawNode {
+					R.Violate("concurrent-creation-private-node", fmt.Sprintf("configuration %d holds a node object for id %d (%s) that is not the manager's pooled node: configurations do not share one node object per id", g, n.ID(), n.Address()), map[string]any{"lists": lists})
+					break
+				}
+			}
+		}
+		if len(pooled) != mgr.Size() {
+			R.Violate("manager-size", fmt.Sprintf("Size()=%d, distinct ids %d", mgr.Size(), len(pooled)), nil)
+		}
+		R.Eval(fmt.Sprintf("concurrent|%v", lists), true)
+	}
+	R.Count("concurrent_creation_rounds", int64(iters))
 }
 
 func runConfigProgram(e *Env, idx int, rng *rand.Rand, coll [][2]string) {
